@@ -504,10 +504,14 @@ func (l c02) Exec(env *core.Env) *core.Result {
 				nativeIdentityFails := w["identity"] == 2 && !(pluginUsable && declared["identity"])
 				pluginIdentityFails := asked["identity"] && pluginExecuted && w["callErr"] == 0 && w["vIdentity"] == 1 && !(w["crit"] == 2)
 				shouldFail := w["anchor"] != 0 || nativeIdentityFails || pluginIdentityFails
+				// a failing identity verdict next to an unprocessed critical attribute: whether the verdict is written
+				// into the authenticity result before the attribute problem ends the evaluation is not fixed by the
+				// statement - the result may or may not carry the plugin's failure
+				verdictMayShow := asked["identity"] && pluginExecuted && w["callErr"] == 0 && w["vIdentity"] == 1 && w["crit"] == 2
 				if shouldFail && r.Error == nil {
 					res.Violate("C02/failed-authenticity-not-reported", key, "anchor=%d identity=%d plugin verdict=%d but the authenticity result carries no error", w["anchor"], w["identity"], w["vIdentity"])
 				}
-				if !shouldFail && r.Error != nil && !(asked["identity"] && !pluginExecuted) {
+				if !shouldFail && r.Error != nil && !(asked["identity"] && !pluginExecuted) && !verdictMayShow {
 					res.Violate("C02/authenticity-failed-without-cause", key, "authenticity failed (%v) in a situation with a trusted anchor and a matching identity", r.Error)
 				}
 			}
